@@ -29,6 +29,33 @@ LO = int((D.datetime(1900, 1, 1, tzinfo=D.timezone.utc) - EPOCH) // MS)
 HI = int((D.datetime(2200, 1, 1, tzinfo=D.timezone.utc) - EPOCH) // MS)
 
 
+class _OwnUTC(D.tzinfo):
+    """a user-defined UTC tzinfo (as pytz / dateutil provide)"""
+
+    def utcoffset(self, dt):
+        return D.timedelta(0)
+
+    def dst(self, dt):
+        return D.timedelta(0)
+
+    def tzname(self, dt):
+        return "UTC"
+
+    def __str__(self):
+        return "UTC"
+
+    def __repr__(self):
+        return "UTC"
+
+
+OWN_UTC = _OwnUTC()
+try:
+    import zoneinfo
+    ZONEINFO_UTC = zoneinfo.ZoneInfo("UTC")
+except Exception:  # noqa: BLE001 - no zone database
+    ZONEINFO_UTC = None
+
+
 def ms_to_dt(ms):
     return EPOCH + D.timedelta(milliseconds=ms)
 
@@ -74,7 +101,14 @@ def check_ms(ctx, mss):
         elif o2.value != ms:
             ctx.violation("epoch_roundtrip", {"ms": ms, "back": o2.value}, one(ms))
         # the oracle's datetime, naive and aware
-        for tag, d in (("aware", want_dt), ("naive", want_dt.replace(tzinfo=None))):
+        # (UTC-aware through datetime.timezone.utc, through an equal timezone object, through the IANA zone 'UTC', through a
+        # user-defined tzinfo called UTC: all of them say 'UTC' with a zero offset)
+        variants = [("aware", want_dt), ("naive", want_dt.replace(tzinfo=None))]
+        if ms % 7 == 0:
+            variants += [("aware_timezone_zero", want_dt.replace(tzinfo=D.timezone(D.timedelta(0)))), ("aware_own_tzinfo", want_dt.replace(tzinfo=OWN_UTC))]
+            if ZONEINFO_UTC is not None:
+                variants.append(("aware_zoneinfo", want_dt.replace(tzinfo=ZONEINFO_UTC)))
+        for tag, d in variants:
             o3 = call(T.datetime_to_utc_epoch, d)
             if not o3.ok:
                 ctx.unexpected(o3, "datetime_to_utc_epoch_" + tag, one(ms))
